@@ -200,10 +200,11 @@ def has_call(n):
 class Run:
     """one execution of the reference semantics under a forced decision prefix"""
     MAXDEPTH = 48
-    def __init__(s, prog, sym_globals, inputs, decisions, solver, max_steps=20000):
+    def __init__(s, prog, sym_globals, inputs, decisions, solver, max_steps=20000, deadline=None):
         s.gl, s.procs, s.order = prog; s.sym = sym_globals; s.inputs = inputs; s.dec = list(decisions); s.taken = []
         s.pc = []; s.events = []; s.solver = solver; s.pending = []; s.steps = 0; s.max_steps = max_steps; s.nin = 0; s.depth = 0
         s.calls = []       # procedure entry sequence (C15)
+        s.deadline = deadline
         s.G = {}; s.A = {}; s.V = {}; s.S = {}
         s.impure = effects(prog)
         for d in s.gl:
@@ -259,6 +260,9 @@ class Run:
     def tick(s):
         s.steps += 1
         if s.steps > s.max_steps: raise Budget()
+        if s.deadline is not None and (s.steps & 255) == 0:
+            import time
+            if time.time() > s.deadline: raise Budget()
     def order_open(s, operands):
         """X leaves the evaluation order of these sibling operands open: defined only if at most one of them can have an effect
         and, when one has, the others do not call at all (they could observe the effect)"""
@@ -431,7 +435,7 @@ def reads_state(n):
     if n[0] in ('name', 'sub'): return True
     return any((isinstance(c, tuple) and reads_state(c)) or (isinstance(c, list) and any(reads_state(x) for x in c)) for c in n[1:])
 
-def explore(src, sym_globals, inputs, max_paths=64, max_steps=20000):
+def explore(src, sym_globals, inputs, max_paths=64, max_steps=20000, deadline=None):
     """all paths of the reference semantics: list of dict(pc, events, status, calls). status: 'ok' | 'undefined: ..' | 'budget'"""
     prog = parse(src)
     solver = z3.Solver(); solver.set('timeout', 20000)
@@ -440,7 +444,11 @@ def explore(src, sym_globals, inputs, max_paths=64, max_steps=20000):
         if len(results) >= max_paths:
             results.append(dict(pc=None, events=None, status='budget: path limit', calls=None)); break
         dec = work.pop()
-        r = Run(prog, sym_globals, inputs, dec, solver, max_steps)
+        if deadline is not None:
+            import time
+            if time.time() > deadline:
+                results.append(dict(pc=None, events=None, status='budget: wall clock', calls=None)); break
+        r = Run(prog, sym_globals, inputs, dec, solver, max_steps, deadline)
         try:
             if 'main' not in r.procs or r.procs['main']['func'] or r.procs['main']['formals']: raise Undefined("no procedure main()")
             r.call('main', [], False); ev = r.events + [('exit', 0)]; status = 'ok'
